@@ -3,20 +3,23 @@
 # For each seeded change: apply it in a scratch worktree, regenerate the Lean definitions from that
 # tree into a scratch copy of the Lean project, and list the equivalence modules that no longer build.
 export GOFLAGS=-mod=mod GOPROXY=off
-cd /verif/translate && go build -o /tmp/verifgen-gm . || exit 2
+# GM_DIR: where the changes live (default /verif/seeded); GM_TAG: suffix of the scratch paths, so
+# that two runs do not share them
+GM_DIR=${GM_DIR:-/verif/seeded}; GM_TAG=${GM_TAG:-a}
+cd /verif/translate && go build -o /tmp/verifgen-gm$GM_TAG . || exit 2
 MODS=$(ls /verif/lean/Gribi/Props/GenEquiv/*.lean | sed 's#.*/##; s#\.lean##' | sed 's#^#Gribi.Props.GenEquiv.#')
-[ $# -eq 0 ] && set -- $(ls /verif/seeded | grep -v MATRIX)
-rm -rf /tmp/gm_lean; cp -r /verif/lean /tmp/gm_lean
+[ $# -eq 0 ] && set -- $(ls $GM_DIR | grep -v MATRIX)
+rm -rf /tmp/gm${GM_TAG}_lean; cp -r /verif/lean /tmp/gm${GM_TAG}_lean
 for id in "$@"; do
-  WT=/tmp/gm_wt
+  WT=/tmp/gm${GM_TAG}_wt
   git -C /repo worktree remove --force $WT 2>/dev/null; rm -rf $WT; git -C /repo worktree prune
   git -C /repo worktree add -q --detach $WT HEAD || exit 2
-  if ! git -C $WT apply /verif/seeded/$id/patch.diff 2>/dev/null; then echo "$id: patch does not apply"; continue; fi
-  /tmp/verifgen-gm -repo $WT -out /tmp/gm_lean/Gribi/Gen > /tmp/gm_gen.log 2>&1
+  if ! git -C $WT apply $GM_DIR/$id/patch.diff 2>/dev/null; then echo "$id: patch does not apply"; continue; fi
+  /tmp/verifgen-gm$GM_TAG -repo $WT -out /tmp/gm${GM_TAG}_lean/Gribi/Gen > /tmp/gm${GM_TAG}_gen.log 2>&1
   BAD=""
   for m in $MODS; do
-    (cd /tmp/gm_lean && lake build $m > /tmp/gm_build.log 2>&1) || BAD="$BAD ${m##*.}"
+    (cd /tmp/gm${GM_TAG}_lean && lake build $m > /tmp/gm${GM_TAG}_build.log 2>&1) || BAD="$BAD ${m##*.}"
   done
-  echo "$id: $(head -1 /tmp/gm_gen.log | cut -c1-60) | broken:${BAD:- none}"
+  echo "$id: $(head -1 /tmp/gm${GM_TAG}_gen.log | cut -c1-60) | broken:${BAD:- none}"
 done
-git -C /repo worktree remove --force /tmp/gm_wt 2>/dev/null; rm -rf /tmp/gm_lean
+git -C /repo worktree remove --force /tmp/gm${GM_TAG}_wt 2>/dev/null; rm -rf /tmp/gm${GM_TAG}_lean
